@@ -14,7 +14,7 @@ import io
 import json
 
 from .. import gen, sergen
-from ..core import CaseTimeout, case_deadline, rng_for, short_tb
+from ..core import CaseTimeout, case_deadline, rng_for, short_tb, note_exc
 
 PROP = "C12"
 LEVEL = "exploration"
@@ -226,7 +226,7 @@ def run_writer(case, res):
         res.inconc("case watchdog fired")
         return
     except Exception:
-        bad.append("save/decoder raised: " + short_tb())
+        note_exc(res, bad, "save() raised: ")
     if bad:
         res.violation(case, "; ".join(bad[:3])[:3000], n_bad=len(bad))
 
@@ -243,8 +243,8 @@ def model_tree(rng, typed):
     for i in range(n):
         used = {(ids[j] if ids[j] is not None else labs[j]) for j in range(i) if par[j] == par[i]}
         for _ in range(60):
-            lab = rng.choice(["a", "b", "c", "ä", "d e"])
-            did = rng.choice([None, None, None, lab + "#1", 100 + ord(lab[0])])
+            lab = rng.choice(["a", "b", "c", "ä", "d e", ""])
+            did = rng.choice([None, None, None, lab + "#1", 100 + ord((lab or "_")[0])])
             if (did if did is not None else lab) not in used:
                 break
         else:
@@ -307,6 +307,9 @@ def encode(model, rng, typed, variant):
                     if value_map and "kind" in entry:
                         entry["kind"] = value_map["kind"].index(entry["kind"])
                     entry = {key_map.get(k, k): v for k, v in entry.items()}
+                    if not key_map and variant.get("user_short_keys"):
+                        # no key map declared: keys that merely look like the default short keys are ordinary user keys
+                        entry.update({"s": "user-s", "i": "user-i", "k": "user-k"})
                 nodes.append([parent_pos, entry])
                 first.setdefault(ident, (pos, kind))
             emit(kids, pos)
@@ -352,8 +355,14 @@ def run_reader(case, res):
             cls = TypedTree if typed else Tree
             has_ids = '"data_id"' in text or '"D"' in text
             kw = {}
-            if has_ids or not typed:
-                kw["mapper"] = lambda parent, data: data["str"]
+            seen_user = []
+            if has_ids or not typed or variant.get("user_short_keys"):
+                def _m(parent, data):
+                    if variant.get("user_short_keys") and not variant["key_map"] and "s" in data:
+                        seen_user.append((data.get("s"), data.get("i"), data.get("k")))
+                    return data["str"]
+
+                kw["mapper"] = _m
             fmeta = {}
             res.count("reader_docs")
             res.observe("documents_loaded", text)
@@ -371,6 +380,8 @@ def run_reader(case, res):
                 exp = model_shape(model)
                 if got != exp:
                     bad.append(f"loaded tree {got} differs from the described tree {exp}")
+                if any(u != ("user-s", "user-i", "user-k") for u in seen_user):
+                    bad.append(f"user keys s/i/k of a document without $key_map reached the mapper as {seen_user[:2]}")
                 if variant["user_meta"] and fmeta.get("author") != "someone":
                     bad.append("file_meta lacks the user metadata")
                 if fmeta.get("$generator") != variant["generator"]:
@@ -379,7 +390,7 @@ def run_reader(case, res):
         res.inconc("case watchdog fired")
         return
     except Exception:
-        bad.append("harness: " + short_tb())
+        note_exc(res, bad, "exception escaped from the library: ")
     if bad:
         res.violation(case, "; ".join(bad[:2])[:3000], n_bad=len(bad), document=doc if "doc" in dir() else None)
 
@@ -555,7 +566,7 @@ def run_shard(spec, res):
             typed = rng.random() < 0.5
             variant = {"key_map": rng.choice([False, True, "partial"]), "value_map": rng.random() < 0.5, "refs": rng.random() < 0.7,
                        "plain_str": rng.random() < 0.5, "omit_default_kind": rng.random() < 0.3, "generator": rng.choice(GENERATORS),
-                       "user_meta": rng.random() < 0.5}
+                       "user_meta": rng.random() < 0.5, "user_short_keys": rng.random() < 0.4}
             run_case({"kind": "reader", "seed": rng.randrange(10**9), "typed": typed, "variant": variant}, res)
             if res.expired():
                 break
